@@ -39,7 +39,7 @@ CHECKS = {
    "DESIGN.md §3 C20", "harness"),
  "C01": ("exploration",
    "property-based testing (proptest) of generated concurrent histories on a deterministic simulated connection (scripted transport, paused-clock runtime with seeded select! order); token-tracing oracle",
-   "1-12 operations on 1-4 cloned handles, a generated global merge order of all response PDUs, unsolicited/late PDUs, read segmentation and scheduler seed; every operation must observe exactly the tokens the server sent under its own wire id, in order, and nobody may see an unsolicited token.",
+   "1-12 operations on 1-4 cloned handles, a generated global merge order of all response PDUs, unsolicited/late PDUs, entry padding up to 300 KB, id-counter rewinds (ids of completed operations handed out again), read segmentation and scheduler seed; every operation must observe exactly the tokens the server sent under its own wire id, in order, and nobody may see an unsolicited token.",
    "Trusted base: harness SIM (src/sim.rs), response model, tokio paused clock and RngSeed. Schedules are sampled, not enumerated.",
    "DESIGN.md §3 C01, §2.2", "harness"),
  "C02": ("exploration",
@@ -54,7 +54,7 @@ CHECKS = {
    "DESIGN.md §3 C03", "harness"),
  "C06": ("exploration",
    "property-based testing (proptest) with exhaustive sub-spaces: generated message streams fed to the frame decoder under generated partitions, every 2-chunk split and every prefix of short streams; end-to-end lane through the scripted transport with generated read sizes",
-   "Delivered (id, op, controls) sequence must equal the model for every partition; no message before its last byte; after each delivery exactly the following bytes remain. Exhaustive over all split points for streams <= 600 bytes.",
+   "Delivered (id, op, controls) sequence must equal the model for every partition; no message before its last byte; after each delivery exactly the following bytes remain. Exhaustive over all split points for streams <= 600 bytes; a 'huge' lane places a 1-16 MiB message inside a stream with followers in the same read.",
    "Trusted base: harness BER writer; Framed's append-then-decode contract emulated in the decoder lane, real Framed in the e2e lane.",
    "DESIGN.md §3 C06", "harness"),
  "C10": ("exploration",
@@ -64,7 +64,7 @@ CHECKS = {
    "DESIGN.md §3 C10, Appendix B", "harness"),
  "C13": ("exploration",
    "property-based testing (proptest) of generated operation histories on the simulated connection; invariant (empty id table, empty routing maps) checked at every virtual-clock quiescent point via the id-table and gauge hooks",
-   "Histories up to 42 steps mixing every operation kind, timeouts with late replies, replies that tie with the deadline (reply and scrub request reach the driver in the same turn; seeded select! order), timeouts while the request is still queued behind a full socket send buffer (answered later or never), direct/adapted/paged searches read to the end or finished early (also while still open at the driver), abandons of finished/timed-out/in-flight/never-issued ids, unsolicited responses and rewinds of the id counter; after every step nothing may remain reserved or routed.",
+   "Histories up to 42 steps mixing every operation kind, timeouts with late replies, replies that tie with the deadline (reply and scrub request reach the driver in the same turn; seeded select! order), timeouts while the request is still queued behind a full socket send buffer (answered later or never), direct/adapted/paged searches read to the end or finished early (also while still open at the driver), abandons of finished/timed-out/in-flight/never-issued ids and of mid-stream searches (then finished or dropped), foreign-type responses under a live search id, search() timeouts, unsolicited responses and rewinds of the id counter; after every step nothing may remain reserved or routed.",
    "Trusted base: hooks verif_msgmap/verif_gauges (read-only), SIM quiescence (paused clock).",
    "DESIGN.md §3 C13", "harness"),
  "C16": ("exploration",
@@ -79,17 +79,17 @@ CHECKS = {
    "DESIGN.md §3 C04", "harness"),
  "C05": ("exploration",
    "property-based testing (proptest), model-based: the real allocator driven through hooks against a reference model from generated table states; end-to-end wave histories near the wrap point on the simulated connection; real-thread stress lane checking uniqueness",
-   "Allocator vs. reference model from arbitrary (counter, in-use) states incl. clusters at both ends of the id space; the scripted server verifies range/uniqueness of ids of outstanding requests across the MAX->1 wrap; 2-16 OS threads allocate concurrently on clones and no id may repeat.",
+   "Allocator vs. reference model from arbitrary (counter, in-use) states incl. clusters at both ends of the id space; the scripted server verifies range/uniqueness of ids of outstanding requests (single operations, searches that stay open, AbandonRequests) across the MAX->1 wrap and that an outstanding operation's id stays reserved; 2-16 OS threads allocate concurrently on clones and no id may repeat.",
    "Trusted base: hooks verif_msgmap/verif_next_msgid; thread interleavings inside the critical section are sampled, not enumerated.",
    "DESIGN.md §3 C05", "harness"),
  "C12": ("exploration",
    "property-based testing (proptest) of generated timed histories on the paused virtual clock; exact-instant oracle (1 ms granularity), token tracing for late replies, id-table hooks for release/reuse",
-   "Timed and untimed single operations and direct/EntriesOnly/PagedResults searches (paged ones with generated page ends answered by follow-up requests), concurrent on clones or chained on ONE handle (so timed-out operations are followed by timed and untimed ones on the same handle), with scripted arrival instants before/after/never relative to the deadline; timeouts must fire at start+T (per next() call for searches, also on page 2+), other and later operations complete with their own tokens, late replies reach nobody, timed-out ids are released, handed out again and work for the operation that gets them.",
+   "Timed and untimed single operations and direct/EntriesOnly/PagedResults searches (paged ones with generated page ends answered by follow-up requests), searches through search() and timed-out streams dropped without finish(), concurrent on clones or chained on ONE handle (so timed-out operations are followed by timed and untimed ones on the same handle), with scripted arrival instants before/after/never relative to the deadline; timeouts must fire at start+T (per next() call for searches, also on page 2+), other and later operations complete with their own tokens, late replies reach nobody, timed-out ids are released, handed out again and work for the operation that gets them.",
    "Trusted base: tokio paused clock (time advances only at global idleness), SIM, hooks. No ties (|arrival-deadline| >= 2 ms).",
    "DESIGN.md §3 C12", "harness"),
  "C11": ("exploration",
    "property-based testing (proptest) with a single-field mutation catalogue over valid messages + random bytes against the frame decoder (catch_unwind, progress rule) and against the live driver on the simulated connection; child-process stack lane for nesting depth; libFuzzer lane in thorough",
-   "Decoder: never a panic, no 'need more' once the outer frame is complete, exact consumption, definite non-envelopes (incl. over-long message ids whose low octets alias a valid id) never delivered. Driver: with 1-3 operations pending, hostile bytes (alone or in the same read behind 1-3 well-formed frames; targets incl. message id 0) never panic or wedge the driver (virtual watchdog) and definite non-envelopes end the connection with an error every pending operation observes. Stack: up to ~250 000 nested elements in 1 MiB decoded on a 2 MiB stack in a child process.",
+   "Decoder: never a panic, no 'need more' once the outer frame is complete, exact consumption, definite non-envelopes (incl. over-long message ids whose low octets alias a valid id) never delivered. Driver: with 1-3 operations pending, hostile bytes (alone or in the same read behind 1-3 well-formed frames; targets incl. message id 0) never panic or wedge the driver (virtual watchdog) and definite non-envelopes end the connection with an error every pending operation observes. Stack: up to ~250 000 nested elements (definite and indefinite length forms) in 1 MiB decoded on a 2 MiB stack in a child process. Skeletons: exhaustive enumeration of all envelopes of 0-4 (thorough 0-5) elements over a 14-element alphabet.",
    "Trusted base: harness BER reader (classification of 'definitely not an envelope'), SIM. A panic in the caller's task on a well-enveloped ill-formed result is outside the statement and only labelled.",
    "DESIGN.md §3 C11, Appendix D", "harness"),
  "C17": ("fault_enumeration",
